@@ -238,9 +238,18 @@ def r03_3(ctx, S, prog, crate):
         lp = b.innermost_loop(push[0].bb)
         ok = lp is not None and lp["header"] != S.loop["header"] and b.once_per_iteration(push[0].bb, lp)
         ctx.check(ok, "R03.3", [b.path, "one-push-per-raw-sample"], "time_samples.push is not executed exactly once per raw sample", push[0].line())
-        ctx.check(const_int(dec[0].args[1]) == 1, "R03.3", [b.path, "decrement-by-one"], "the remaining-sample counter is decreased by %s" % dec[0].args[1], dec[0].line())
+        per_round = ok and const_int(dec[0].args[1]) != 1 and _is_round_sample_count(b, dec[0].args[1])
+        if per_round:
+            # idiom 3: one decrement per round, by the number of raw samples of the round (saturating; a count beyond u32 clamps)
+            ctx.ok("R03.3", "%s|decrement-by-round-size" % b.path)
+            lp_dec = S.loop
+        else:
+            ctx.check(const_int(dec[0].args[1]) == 1, "R03.3", [b.path, "decrement-by-one"], "the remaining-sample counter is decreased by %s" % dec[0].args[1], dec[0].line())
+            lp_dec = lp
         if ok:
             # decrement in the same loop, once per iteration whenever the counter is Some
+            lp_push = lp
+            lp = lp_dec
             lp2 = b.innermost_loop(dec[0].bb)
             same = lp2 is not None and lp2["header"] == lp["header"]
             guard_ok = False
@@ -255,12 +264,42 @@ def r03_3(ctx, S, prog, crate):
                         guard_ok = not any(l in r for l in lp["latches"])
             ctx.check(same and guard_ok, "R03.3", [b.path, "one-decrement-per-raw-sample"],
                       "the remaining-sample counter is not decreased exactly once per recorded sample", dec[0].line())
+            lp = lp_push
             # the loop iterates the raw samples of this round (slice built from the vector par_extend filled)
             nx = [c for c in b.live_calls() if c.bb in lp["body"] and c.callee.endswith("::next") and b.innermost_loop(c.bb)["header"] == lp["header"]]
             if nx:
                 srcs = b.prov.op_src(nx[0].args[0])
                 ctx.check(any(z.kind == "call" and z.a == "std::slice::from_raw_parts" for z in srcs) and nophi(srcs), "R03.3", [b.path, "iterates-this-rounds-raw-samples"],
                           "the post-processing loop does not iterate the slice of this round's raw samples", nx[0].line())
+
+
+def _is_round_sample_count(b, op):
+    """The operand is the number of raw samples of this round as a u32: `len()` of the raw-sample vector / slice, converted
+    by try_from(..).unwrap_or(u32::MAX) (clamping) or widening only."""
+    from lib.symexpr import Sym
+    e = Sym(b, site_args=True).op(op)
+
+    def strip(e):
+        if isinstance(e, tuple):
+            if e and e[0] == "site" and len(e) > 3:
+                return ("call", e[1], tuple(strip(x) for x in e[3]))
+            return tuple(strip(x) for x in e)
+        return e
+    e = strip(e)
+    for _ in range(4):
+        if e[0] == "call" and e[1].rsplit("::", 1)[-1] == "unwrap_or" and len(e[2]) == 2 and e[2][1] == ("int", 2 ** 32 - 1):
+            e = e[2][0]
+        elif e[0] == "call" and e[1].rsplit("::", 1)[-1] in ("try_from", "try_into") and len(e[2]) == 1:
+            e = e[2][0]
+        else:
+            break
+    if not (e[0] == "call" and e[1].rsplit("::", 1)[-1] == "len" and len(e[2]) == 1):
+        return False
+    return "RawSample" in str(e) or "from_raw_parts" in str(e) or any(
+        z.kind == "call" and z.a in ("std::slice::from_raw_parts", PAR_EXTEND_) for z in b.prov.op_src(op))
+
+
+PAR_EXTEND_ = "util::thread::pool::ThreadPool::par_extend"
 
 
 def r03_4(ctx, S, prog, crate):
